@@ -63,6 +63,13 @@ def alphabet(r, base):
     A.append(T.Entry("dir", b"..\x00/", perms=0o40777, mtime=1000000000, uid=0, gid=0))
     A.append(T.Entry("dir", b"d/..\x00/", perms=0o40700, mtime=1000000001))
     A.append(T.Entry("dir", b"./", perms=0o40711, mtime=1000000002))
+    # parents of a DEFERRED link resolved through links made earlier in the deferred phase (found by the containment proof):
+    # a/d/, a/llll -> /ABS/outside (dangerous), a/llll -> d (safe, replaces the placeholder), p -> a/llll, p/q/m -> /zz (dangerous)
+    A.append(T.Entry("dir", b"a/d/", perms=0o40755, mtime=1100000000))       # 40
+    A.append(T.Entry("link", b"a/llll", target=out_abs))                      # 41
+    A.append(T.Entry("link", b"a/llll", target=b"d"))                         # 42
+    A.append(T.Entry("link", b"p", target=b"a/llll"))                         # 43
+    A.append(T.Entry("link", b"p/q/m", target=b"/zz"))                        # 44
     return A
 
 
